@@ -597,24 +597,33 @@ def parseEnumDecl (F : Nat) (c : Core) (typename : PQName) (tok : CTok) (doxygen
       emit (.enum { typename := typename, values := values, base := base, doxygen := doxygen, access := access })
       finishClassOrEnum F c typename isTypedef mods (some "enum")
 
+/-- one iteration of the `virtual` / access-specifier loop in front of a base class name -/
+def baseSpecBody (st : CTok × String × Bool) : M ((CTok × String × Bool) ⊕ (CTok × String × Bool)) := do
+  let tok := st.1
+  let access := st.2.1
+  let virtual := st.2.2
+  if Gen.baseAccessVirtual.contains tok.type then do
+    let t ← token
+    if tok.type = "virtual" then pure (.inl (t, access, true)) else pure (.inl (t, tok.type, virtual))
+  else pure (.inr (tok, access, virtual))
+
+/-- one base class: optional attributes, specifiers, the name, an optional `...`, and whether a `,` follows -/
+def baseBody (F : Nat) (c : Core) (defaultAccess : String) (bases : List BaseClass) : M (List BaseClass ⊕ List BaseClass) := do
+  let mut tok0 ← token
+  -- might start with attributes
+  if Gen.attributeSpecifierSeqStartTypes.contains tok0.type then
+    consumeAttributeSpecifierSeq F tok0
+    tok0 ← token
+  -- virtual/access specifier comes next
+  let (tok, access, virtual) ← loopN F (tok0, defaultAccess, false) baseSpecBody
+  let (typename, _) ← c.parsePqname (some tok) false false false
+  let parameterPack := (← tokenIf ["ELLIPSIS"]).isSome
+  let bases := bases ++ [{ access := access, typename := typename, virtual := virtual, paramPack := parameterPack }]
+  if (← tokenIf [","]).isNone then pure (.inr bases) else pure (.inl bases)
+
 /-- `_parse_class_decl_base_clause(default_access)` -/
 def parseClassDeclBaseClause (F : Nat) (c : Core) (defaultAccess : String) : M (List BaseClass) :=
-  loopN F ([] : List BaseClass) (fun bases => do
-    let mut tok0 ← token
-    -- might start with attributes
-    if Gen.attributeSpecifierSeqStartTypes.contains tok0.type then
-      consumeAttributeSpecifierSeq F tok0
-      tok0 ← token
-    -- virtual/access specifier comes next
-    let (tok, access, virtual) ← loopN F (tok0, defaultAccess, false) (fun (tok, access, virtual) => do
-      if Gen.baseAccessVirtual.contains tok.type then do
-        let t ← token
-        if tok.type = "virtual" then pure (.inl (t, access, true)) else pure (.inl (t, tok.type, virtual))
-      else pure (.inr (tok, access, virtual)))
-    let (typename, _) ← c.parsePqname (some tok) false false false
-    let parameterPack := (← tokenIf ["ELLIPSIS"]).isSome
-    let bases := bases ++ [{ access := access, typename := typename, virtual := virtual, paramPack := parameterPack }]
-    if (← tokenIf [","]).isNone then pure (.inr bases) else pure (.inl bases))
+  loopN F ([] : List BaseClass) (baseBody F c defaultAccess)
 
 /-- `_parse_class_decl(typename, tok, doxygen, template, typedef, location, mods)` -/
 def parseClassDecl (F : Nat) (c : Core) (typename : PQName) (tok : CTok) (doxygen : Option String)
